@@ -157,6 +157,12 @@ def str_rfind(s, sub, a, b): return s.rfind(sub, a, b)
 def char(i): return chr(i)
 def codepoint(s): return ord(s)
 def int_str(i): return str(i)
+def int_text_ok(s):
+    try:
+        int(s)
+        return True
+    except ValueError:
+        return False
 def utf8(s): return list(s.encode('utf-8', 'surrogatepass'))
 def exc_message(e): return Exception.__str__(e)
 def func_id(f): return id(f)
